@@ -205,6 +205,13 @@ def build_response(p_, key, other_key, rng):
         bad = bytearray(good)
         bad[rng.randrange(len(bad) - 1)] ^= 1
         h.append(b"Sec-WebSocket-Accept: " + bytes(bad))
+    elif a == "wrong-case":
+        # base64 is case sensitive: the same letters in another case are the digest of something else
+        bad = rng.choice([good.lower(), good.upper(), good.swapcase(), good[:k_] + good[k_:k_ + 1].swapcase() + good[k_ + 1:]
+                          if (k_ := rng.choice([i for i in range(len(good)) if good[i:i + 1].isalpha()] or [0])) is not None else good])
+        if bad == good:
+            bad = good.swapcase()
+        h.append(b"Sec-WebSocket-Accept: " + bad)
     elif a == "other-key":
         h.append(b"Sec-WebSocket-Accept: " + wsx.accept_for(other_key))
     pr = p_["proto"]
@@ -316,7 +323,10 @@ def run_creq(inp, rng):
             # percent-encoded octets of the resource go out exactly as given (decoding them would change the resource)
             ("ws://example.com/chat%20room", "example.com", 80, "/chat%20room"), ("ws://example.com/user%3Fadmin=1", "example.com", 80, "/user%3Fadmin=1"),
             ("ws://example.com/a%2Fb/c", "example.com", 80, "/a%2Fb/c"), ("ws://example.com/%C3%A4%E2%82%AC", "example.com", 80, "/%C3%A4%E2%82%AC"),
-            ("ws://example.com/p%20q?x=%26&y=%3D", "example.com", 80, "/p%20q?x=%26&y=%3D"), ("ws://example.com/a%23b", "example.com", 80, "/a%23b"), ("ws://[::1]:9000/ip6", "::1", 9000, "/ip6"), ("ws://h.example:65535", "h.example", 65535, "/")]
+            ("ws://example.com/p%20q?x=%26&y=%3D", "example.com", 80, "/p%20q?x=%26&y=%3D"), ("ws://example.com/a%23b", "example.com", 80, "/a%23b"), ("ws://[::1]:9000/ip6", "::1", 9000, "/ip6"), ("ws://h.example:65535", "h.example", 65535, "/"),
+            # an explicit port that is the *other* scheme's default is not a default port
+            ("ws://example.com:443/x", "example.com", 443, "/x"), ("wss://sec.example.org:80/y", "sec.example.org", 80, "/y"),
+            ("wss://sec.example.org:443/z", "sec.example.org", 443, "/z"), ("ws://example.com:8/x", "example.com", 8, "/x")]
     for url, host, port, resource in urls:
         for version in (10, 13, 18):
             log = []
